@@ -168,12 +168,16 @@ def run(outdir, only):
         for l in open(rp):
             done.add(json.loads(l)["id"])
     todo = [m for m in index if m["id"] not in done and (not only or m["id"] in only)]
+    if os.environ.get("SAMPLE"):
+        import random
+        random.Random(20260927).shuffle(todo)
+        todo = todo[:int(os.environ["SAMPLE"])]
     print("to run:", len(todo), flush=True)
 
     def one(m):
         ids = CHECKS[m["file"]]
         r = subprocess.run([os.path.join(ROOT, "tools", "try_patch.sh"), os.path.join(outdir, m["id"] + ".diff"), ids, "quick"],
-                           stdout=subprocess.PIPE, stderr=subprocess.STDOUT, text=True)
+                           stdout=subprocess.PIPE, stderr=subprocess.STDOUT, text=True, env=dict(os.environ, FIRST="1"))
         caught = re.findall(r"^CAUGHT (\S+)", r.stdout, flags=re.M)
         missed = re.findall(r"^MISSED (\S+)", r.stdout, flags=re.M)
         infra = re.findall(r"^INFRA\(\d+\) (\S+)", r.stdout, flags=re.M)
